@@ -109,6 +109,34 @@ impl Prop for VolumeGain {
             );
         }
         rep.metric("max_relative_error", worst);
+        // the same through the incremental API with a double-sized buffer whose second half holds
+        // live data: the gain applies to the produced frame only ("changes nothing else")
+        if c.volume_db != 0.0 && !y1.is_empty() {
+            let mut g2 = match catch(|| loud.generator(lines)) {
+                Ok(Ok(g)) => g,
+                _ => fail!("generator", "generator failed on the second pass"),
+            };
+            let fp = g2.fperiod();
+            let live = 0.123456789f64;
+            let mut buf = vec![live; 2 * fp];
+            let mut k = 0usize;
+            loop {
+                let r = g2.generate_step(&mut buf);
+                if r == 0 {
+                    break;
+                }
+                ensure!(r == fp && (k + 1) * fp <= y1.len(), "volume-step", "generate_step returned {} at frame {}", r, k);
+                for j in 0..fp {
+                    let (a, b) = (buf[j], y1[k * fp + j]);
+                    ensure!(a.to_bits() == b.to_bits() || (a.is_nan() && b.is_nan()), "volume-step", "frame {} sample {}: incremental {:e} vs one-shot {:e} at {} dB", k, j, a, b, c.volume_db);
+                }
+                ensure!(buf[fp..].iter().all(|x| *x == live), "volume-beyond-frame", "at {} dB generate_step changed the caller's data beyond the frame it produced (frame {})", c.volume_db, k);
+                k += 1;
+                if k > 400 {
+                    break;
+                }
+            }
+        }
         rep.nontrivial = c.volume_db != 0.0 && !y0.is_empty();
         rep.class(c.base.voice.class());
         rep.class_if(y0.iter().any(|x| !x.is_finite()), "runaway-nonfinite");
